@@ -52,7 +52,10 @@ func runC01(rc *RunCtx) {
 		runC01Monitor(rc)
 		return
 	}
-	runC01Tamper(rc)
+	// inside a bubble: the keyring carries install timestamps, and with the
+	// real clock their serialised length (hence the number of corruption
+	// positions) would differ from process to process
+	inBubble(rc, func() { runC01Tamper(rc) })
 }
 
 func runC01Tamper(rc *RunCtx) {
